@@ -522,7 +522,9 @@ def execute(stim):
                     runres = ecode(err)
                 task = circuit._simtask
                 # tasks that edzed created and named (supporting tasks, block tasks) and that are still
-                # pending at the very moment run() returns
+                # pending when run() has returned (one loop iteration later: a task cancelled from a
+                # synchronous stop() - stop_timeout=0 - ends only when the loop runs it once more)
+                await asyncio.sleep(0)
                 st['run_left'] = len([t for t in asyncio.all_tasks() if t not in mine and not t.done()
                                       and t.get_name().startswith('edzed')])
             else:
